@@ -6,6 +6,18 @@ props = [json.loads(l) for l in open(os.path.join(HERE, "properties.jsonl"))]
 hook_commits = ["9fea0ac"]
 
 CHECKS = {
+ "C15": dict(engine="vdrv", design="3/C15",
+   technique="runtime monitoring: in the ASan/UBSan in-process driver a freshly constructed simulator executes one step per leading 16-bit pattern x operand tail x register/PC state x display mode; the monitor records worker deaths (sanitizer report or signal, keyed cpu/kind/function), CPU-time timeouts, exit() without break_io, and any difference in return code, registers, register dump, memory diff or console text between a step, its repetition in the same process and a third execution on a fresh process",
+   text="Exploration, exhaustive over the leading 16 bits in the thorough tier: 15 simulators (16 with the mips32 alias) x all 65536 leading patterns x 4 combinations of tail/state/display (4.1M steps); quick: a stratified seeded sample (every first byte and every second byte of every simulator at least once, 30k steps).",
+   note="13 known findings (msp430 ram_read8(reg[ea]) overflow and exit() inside a step, avr8 push/pop stack indexing, 8008 stack underflow, tms1000 bounds, mips32 div by zero, 8008/f100_l static stop flag non-determinism). run() return value, PC-after-step versus disassembler length and writes above the architectural space are not judged; after 2 deaths in an (opcode class, combo) the rest of that class in the chunk is skipped and counted."),
+ "C16": dict(engine="cli", design="3/C16",
+   technique="runtime monitoring: the real ASan/UBSan naken_asm binary, one input per resource-limited process (RLIMIT_CPU, file-size limit, RSS cap); events: sanitizer report, signal, exit status outside {0,1}, failure without diagnostic, RSS cap, CPU-time limit on inputs that cannot legitimately request bulk output",
+   text="Exploration: enumerated structured blow-ups (token/identifier/number/string/macro-argument lengths at buffer boundaries, operand counts x 68 CPUs, nesting depths of macros/defines/includes/conditionals/parentheses, recursion through defines and includes, extreme addresses, every -type x flags, odd command lines), seeded token-level mutation (18 operators) of samples/ and corpus lines for all 68 CPUs, and unstructured bytes; quick 4954 cases, thorough 67945.",
+   note="Keys are sanitizer kind/function/file or hang/cpu, so a second defect in an already-listed function is masked. Hang verdict withheld for inputs with large range/count literals. Seeded change C16_1 (off-by-one next to an already-reported tokens.cpp bounds site) is missed because UBSan halts at the first, already-known report."),
+ "C17": dict(engine="cli", design="3/C17",
+   technique="runtime monitoring: the real ASan/UBSan naken_util binary, one file+command line+scripted session per resource-limited process; events as C16; hang attribution by reloading the file alone (load hang versus command hang)",
+   text="Exploration: object files written by the sanitizer-built naken_asm (hex, srec, elf, wdc, uf2, amiga, macho, bin) plus TI-TXT, field-aware mutation of every header/record length, count, offset, address and checksum at boundary values, truncation and garbage x cpu flags x -disasm / -disasm_range / option sessions / enumerated one-command sessions x 7 CPUs / seeded random command sessions.",
+   note="run/call/-run are never issued (simulated programs may legitimately not terminate). Hang verdict withheld when the image or a requested range exceeds 64 KiB. Keys per function / per command class and cpu."),
  "C09": dict(engine="vdrv+cli", design="3/C09",
    technique="runtime monitoring: metamorphic monitor: each generated program tree is rendered once with the abstractions (.define/#define, equ, .macro with parameters, nested calls, .include, .repeat) and once hand-expanded; both are assembled by the real assembler (in-process ASan/UBSan build, plus a real-CLI/Intel-HEX sample with real include files) and images and label addresses compared; .repeat oracle = byte replication of the first iteration",
    text="Exploration: 6000 (quick) / 50000 (thorough) seeded programs over 6 CPUs (msp430, z80, mips, avr8, 6502, arm) with define/equ/macro (0..12 parameters, 4 argument kinds, nesting depth <= 8) / include (depth <= 4) / repeat (n <= 50, also inside macros and include files) structure; every feature class is required to be observed.",
@@ -77,7 +89,7 @@ CHECKS = {
 }
 
 # checks that exist but are not claimed yet (reason shown in not_applicable)
-HOLD = {"C07": "check exists (vf/checks/c07.py) but its catalogue of violations present in the unchanged tree is not complete yet, so it is not claimed"}
+HOLD = {"C17": "check exists (vf/checks/c17.py) but seeded random sessions still reach uncatalogued genuine defects on some seeds; not claimed until silent", "C07": "check exists (vf/checks/c07.py) but its catalogue of violations present in the unchanged tree is not complete yet, so it is not claimed"}
 
 PENDING_REASON = "check not built yet in this round of work; design exists in DESIGN.md section 3"
 
